@@ -27,7 +27,8 @@ CHECKS["C15"] = (
     "Model/RVData.v models construction (common mask, common sort), reference epoch, ivar, copy and slicing. Theorems: the model keeps exactly "
     "the (finite) observations time-ordered; an accepted certificate (init_check, init_check_cov, copy_check, slice_check) implies the "
     "implementation's rows are a permutation of the kept input rows with each time paired with its own velocity/error/covariance row+column, "
-    "sorted, default epoch = earliest time. Every run Coq evaluates those certificates on the implementation's actual outputs for random "
+    "sorted, default epoch = earliest time. tools/py2v_data.py regenerates RVData.__init__, ivar, __copy__, copy, __getitem__ from source (Gen/DataGen.v; accepted only in the pinned statement forms) with numpy's unstable argsort as a section variable, and Props/C15g.v proves for EVERY sorting permutation: the stored "
+    "observations are exactly the kept inputs, paired, time-ordered; copy() drops nothing and hands over the epoch; data[sel] holds exactly the selected rows; t.min() is the head of the sorted epochs; 1/err^2 meets the ivar certificate. Every run Coq evaluates those certificates on the implementation's actual outputs for random "
     "inputs (NaN/inf placements, duplicates, units, Time/float, covariance) and the harness runs the independent predicate.",
     "Trusted: Coq kernel + vm_compute; harness recovery of the applied permutation from unique velocity tags; astropy Time/units; "
     "np.linalg.inv up to the checked product cov*ivar=I (1e-8). Floating point enters only as exact dyadic rationals.",
